@@ -104,6 +104,32 @@ def run(ctx):
                 ctx.ob("C01.D1.component", inst, ok, "component-form product differs from the Hamilton product",
                        where=f_times.where, construct="timesQsparse != Hamilton product", loc=f_times.loc(),
                        detail=short(first_diff(got, ref)))
+    # ---- D1: structured operands (whole component planes identically zero): storage-dependent shortcuts ("nothing stored in the real
+    # plane", "no imaginary part") must not change the product.  Exact identity against the Hamilton product of the same operands.
+    def masked(name, shape, keep):
+        M = sym_quat(name, shape)
+        for idx in itertools.product(*[range(x) for x in shape]):
+            M[idx] = SQ(*[c if keep[p] else Poly.const(0) for p, c in enumerate(M[idx].c)])
+        return M
+    MASKS = [(1, 0, 0, 0), (0, 1, 0, 0), (0, 0, 1, 1), (0, 1, 1, 1)] + ([(0, 0, 0, 1), (1, 1, 0, 0)] if ctx.thorough else [])
+    for (m, k, n) in ([(2, 2, 2)] + ([(2, 3, 2)] if ctx.thorough else [])):
+        for ma, mb in itertools.product(MASKS, repeat=2):
+            A, B = masked("a", (m, k), ma), masked("b", (k, n), mb)
+            ref = ref_matmul(A, B)
+            for ka, kb in itertools.product(("dense", "sparse"), repeat=2):
+                inst = f"quat_matmat[{ka}x{kb}] planes A={ma} B={mb} shape {m}x{k}@{k}x{n}"
+                st, out = run_guarded(lambda: it.run(f_matmat, [mkop(ka, A), mkop(kb, B)]))
+                ok = False
+                diff = out
+                if st == "ok":
+                    dense, shp = dense_from_any(out)
+                    ok = arrays_same(dense, ref) and tuple(shp) == (m, n)
+                    diff = None if ok else first_diff(dense, ref)
+                ctx.ob("C01.D1.structured", inst, ok,
+                       f"product of operands with identically zero component planes differs from the Hamilton product at {short(diff)}"
+                       if not ok else "", where=f_matmat.where,
+                       construct=f"quat_matmat[{ka}x{kb}] != Hamilton product for operands with empty component planes",
+                       loc=f_matmat.loc(), detail=short(diff))
     # ---- D1: scalar branches of the component kernel (as used by Arnoldi: vector*scalar, scalar*vector)
     for (rows, cols) in [(3, 1), (2, 2)] + ([(1, 1), (1, 3)] if ctx.thorough else []):
         V = sym_quat("v", (rows, cols))
